@@ -16,6 +16,8 @@ func checkC17(p *load.Program, r *kit.Report) {
 	importRules(p, r, "C09", "after the marked header was trimmed the header files still hold it and its descendants until the next save: range queries must not read above the tip", 3, nil, "TIP-BOUND")
 	importRules(p, r, "C10", "Branches.Trim finds the descendants of a trimmed branch by the identity of their parent pointers: Clean must re-attach every branch to the rebuilt branch objects, or a descendant of the marked header survives the trim and can become the best chain", 1,
 		func(o *kit.Obligation) bool { return strings.HasPrefix(o.Construct, "consolidate/") }, "COVER-ALL")
+	importRules(p, r, "C11", "the marking survives Save/Load only if Save rewrites a branch that Trim has shortened: Branch.Save must always write previous[:offset difference] ++ the in-memory headers", 2,
+		func(o *kit.Obligation) bool { return strings.HasPrefix(o.Construct, "Branch.Save") }, "MERGE-SHAPE")
 	r.NotDecided = "fallback to the heaviest remaining chain and exclusion of descendants as behaviour over histories; HashHeight still answering with the old height for trimmed headers (the long-lived map never shrinks)."
 	r.Rule("PERSIST-UNDER-LOCK", "every call of saveInvalidHashes from a Repository method is made with the repository mutex held (the list is serialised and written in the critical section that read it): a stale snapshot written after the lock was released would undo a concurrent MarkHeaderInvalid/MarkHeaderNotInvalid on disk", 4)
 	checkPersistUnderLock(p, r, "PERSIST-UNDER-LOCK", H, "Repository", func(c ssa.CallInstruction) string {
